@@ -18,7 +18,9 @@ Record dump_spec (d : dump) : Prop := {
   ds_mature : forall e x h, In e (dm_entries d) -> In x (d_vin e) -> snd x = In_utxo h true -> COINBASE_MATURITY <= dm_height d + 1 - h;
   (* the recorded ancestor sets are the closure of "spends an output of an entry" *)
   ds_links : forall e x, In e (dm_entries d) ->
-     (In x (d_anc e) <-> In x (close (S (length (dm_entries d))) (d_parents_id d) (nodupz (d_parents d e)))) }.
+     (In x (d_anc e) <-> In x (close (S (length (dm_entries d))) (d_parents_id d) (nodupz (d_parents d e))));
+  (* every entry is BIP68-final for the next block by a fresh evaluation *)
+  ds_bip68 : forall e, In e (dm_entries d) -> d_bip68 e = true }.
 
 Lemma pair_in_In x l : pair_in x l = true <-> In x l.
 Proof.
@@ -49,6 +51,7 @@ Proof.
   destruct (forallb (fun e => is_final_tx _ _ _) (dm_entries d)) eqn:E8; simpl; [|discriminate].
   destruct (forallb _ (dm_entries d)) eqn:E9 in |- *; simpl; [|discriminate].
   destruct (forallb _ (dm_entries d)) eqn:E10 in |- *; simpl; [|discriminate].
+  destruct (forallb d_bip68 (dm_entries d)) eqn:E11; simpl; [|discriminate].
   intros _. constructor.
   - apply nodupb_z_NoDup. exact E1.
   - apply nodupb_o_NoDup. exact E2.
@@ -63,6 +66,7 @@ Proof.
   - intros e x h He Hx Hs. rewrite forallb_forall in E9. specialize (E9 e He). rewrite forallb_forall in E9. specialize (E9 x Hx).
     rewrite Hs in E9. simpl in E9. apply negb_true_iff, Z.ltb_ge in E9. exact E9.
   - intros e x He. rewrite forallb_forall in E10. specialize (E10 e He). apply same_set_spec. exact E10.
+  - intros e He. rewrite forallb_forall in E11. apply E11. exact He.
 Qed.
 
 (* ------------------------------------------------------------------------------------------ *)
@@ -131,9 +135,14 @@ Definition totals_in_range (p : pool) : Prop :=
   0 <= zsum (map (fun e => t_size (e_tx e)) (p_entries p)) <= UINT64_MAX /\
   INT64_MIN <= zsum (map (fun e => t_fee (e_tx e)) (p_entries p)) <= INT64_MAX.
 
-Theorem inv_dump_passes st : Inv U st -> totals_in_range (s_pool st) -> check_dump (dump_of st) = None.
+(* NOT implied by Inv as proved so far (the cached LockPoints are proved valid and satisfied, not equal to a fresh
+   computation): stated as a premise, and evaluated on every implementation dump by `holds` *)
+Definition fresh_bip68_ok (st : state) : Prop :=
+  forall e, In e (p_entries (s_pool st)) -> fresh_bip68 (s_pool st) (s_chain st) (e_tx e) = true.
+
+Theorem inv_dump_passes st : Inv U st -> totals_in_range (s_pool st) -> fresh_bip68_ok st -> check_dump (dump_of st) = None.
 Proof.
-  intros [Hj [Hf [Hm _]]] [Rs Rf]. pose proof (j_pool _ _ _ _ Hj) as K. set (p := s_pool st) in *. set (c := s_chain st) in *.
+  intros [Hj [Hf [Hm _]]] [Rs Rf] Hfresh. pose proof (j_pool _ _ _ _ Hj) as K. set (p := s_pool st) in *. set (c := s_chain st) in *.
   assert (forall e o, In e (p_entries p) -> In o (t_ins (e_tx e)) ->
           status_of p c o = In_mempool \/ exists h cb, status_of p c o = In_utxo h cb /\ utxo c o = Some (h, cb)) as Hstat.
   { intros e o He Ho. unfold status_of. destruct (find_entry p (fst o)) as [e1|] eqn:F.
@@ -205,7 +214,11 @@ Proof.
     replace (length (dm_entries (dump_of st))) with (length (p_entries (s_pool st))) by (unfold dump_of; simpl; rewrite map_length; reflexivity).
     change (d_anc (dentry_of (s_pool st) (s_chain st) e)) with (ancestors_of_tx (s_pool st) (e_tx e)).
     unfold ancestors_of_tx, fuel_of. apply same_set_refl. }
-  rewrite E10. reflexivity.
+  rewrite E10. cbn [negb orb andb].
+  assert (forallb d_bip68 (dm_entries (dump_of st)) = true) as E11.
+  { apply forallb_forall. intros de Hde. unfold dump_of in Hde. simpl in Hde. apply in_map_iff in Hde. destruct Hde as (e & <- & He).
+    simpl. apply Hfresh. exact He. }
+  rewrite E11. reflexivity.
 Qed.
 
 End WithU.
